@@ -20,6 +20,11 @@ def sh(cmd, cwd=None, timeout=1800):
 
 
 def demo_commands(path):
+    rel = 'seed_out/' + '/'.join(path.split('/')[-2:])
+    if path.endswith('.sh'):
+        return ['sh ' + rel]
+    if path.endswith('.py'):
+        return ['python3 ' + rel]
     cmds = []
     with open(path, errors='replace') as fh:
         head = fh.read().split('\n')[:60]
